@@ -19,8 +19,10 @@ Proof.
     destruct (Nat.eq_dec m m0) as [->|]; [rewrite upd_same|rewrite upd_other by auto]; reflexivity.
   - destruct (acquire p m0 t) eqn:Ha; inv_o H; auto. apply acquire_some in Ha as (k & -> & _). wsimpl.
     destruct (Nat.eq_dec m m0) as [->|]; [rewrite upd_same|rewrite upd_other by auto]; reflexivity.
-  - destruct (owned_by (mtx p m0) t); inv_o H; auto. unfold release. destruct (m_cnt (mtx p m0)) as [|[|k]]; wsimpl;
-      (destruct (Nat.eq_dec m m0) as [->|]; [rewrite upd_same|rewrite upd_other by auto]; reflexivity).
+  - destruct (owned_by (mtx p m0) t); [|destruct (m_rec (mtx p m0))]; inv_o H; auto.
+    + unfold release. destruct (m_cnt (mtx p m0)) as [|[|k]]; wsimpl;
+        (destruct (Nat.eq_dec m m0) as [->|]; [rewrite upd_same|rewrite upd_other by auto]; reflexivity).
+    + unfold release_all. wsimpl. destruct (Nat.eq_dec m m0) as [->|]; [rewrite upd_same|rewrite upd_other by auto]; reflexivity.
   - destruct (st p t) eqn:Hst; try discriminate.
     + destruct (negb _); [inv_o H; reflexivity|]. destruct (dl_bad dl); inv_o H; auto. unfold release_all. wsimpl.
       destruct (Nat.eq_dec m m0) as [->|]; [rewrite upd_same|rewrite upd_other by auto]; reflexivity.
@@ -39,7 +41,7 @@ Definition RecInv (w : world) : Prop := m_rec (mtx (ps w) XM) = true.
 
 Lemma RecInv_step w mv : RecInv w -> RecInv (step w mv).
 Proof.
-  unfold RecInv. intros H. destruct mv as [t|t|t|n|c]; cbn [step].
+  unfold RecInv. intros H. destruct mv as [t|t|t|t|n|c]; cbn [step].
   - rewrite ps_clear_mark.
     destruct (step_run_case w t) as [|Hr Hpc Hs|op rest Hr Hpc Hs|p' Hr Hpc Hp|p' r Hr Hpc Hp]; auto.
     + rewrite ps_begin_op; auto.
@@ -51,6 +53,7 @@ Proof.
   - destruct (st (ps w) t) eqn:Hst; auto.
     + destruct (pc (tc w t)); auto. destruct (_ && _); [rewrite ps_after_return|]; auto.
     + wsimpl. unfold prim_timeout. rewrite Hst. destruct dl; auto. destruct (dl_expired _ _); auto.
+  - wsimpl. destruct (steal_shape (ps w) t) as [->|(m & rc & d & _ & _ & ->)]; auto.
   - auto.
   - wsimpl. unfold prim_rotate. destruct (cnd (ps w) c); auto.
 Qed.
@@ -71,7 +74,7 @@ Proof.
   - now apply SemInv_step.
   - now apply MonInv_step.
   - now apply JoinInv_step.
-  - now apply MtxInv_step.
+  - apply MtxInv_step; auto.
   - now apply SigInv_step.
   - eapply SigLive_step; eauto.
   - now apply TimedInv_step.
@@ -187,7 +190,7 @@ Proof.
   intros Hp. unfold enabled, prim_enabled.
   rewrite (running_at v); [|destruct Hp as [-> |[-> |[-> | ->]]]; discriminate|destruct Hp as [-> |[-> |[-> | ->]]]; cbn; discriminate].
   cbn [runnable andb]. destruct Hp as [-> |[-> |[-> | ->]]]; cbn [pending prim_step];
-    try (destruct (owned_by _ _); reflexivity); try reflexivity. destruct (find _ _); reflexivity.
+    try (destruct (owned_by _ _); [|destruct (m_rec _)]; reflexivity); try reflexivity. destruct (find _ _); reflexivity.
 Qed.
 
 Lemma signal_no_waiter_blocked_while_set_l u :
@@ -215,26 +218,27 @@ Proof. destruct (ai_mon _ _ _ HA) as (A & B). auto. Qed.
 Lemma monitor_set_releases_a_waiter_l u :
   monf w = true -> blocked_on MC (st (ps w) u) = true -> mark w u = true ->
   exists v, ((pc (tc w v) = MonSetUnlock \/ pc (tc w v) = MonSetSignal) /\ enabled w v = true) \/
-            (exists dl dl', st (ps w) v = TWoken MM 0 dl /\ pc (tc w v) = MonWaitCond dl' /\
-                            (is_free (mtx (ps w) MM) = true -> enabled w v = true)).
+            (exists rc dl dl', st (ps w) v = TWoken MM rc dl /\ pc (tc w v) = MonWaitCond dl' /\
+                               (is_free (mtx (ps w) MM) = true -> enabled w v = true)).
 Proof.
   intros Hf Hb Hm. destruct (ai_monlive _ _ _ HA Hf u Hb Hm) as (v & Hv). exists v.
-  destruct Hv as [Hv|[Hv|(dl & dl' & Hs & Hp)]].
+  destruct Hv as [Hv|[Hv|(rc & dl & dl' & Hs & Hp)]].
   - left. split; auto. apply set_steps_enabled; tauto.
   - left. split; auto. apply set_steps_enabled; tauto.
-  - right. exists dl, dl'. repeat split; auto. intros Hfree. unfold enabled, prim_enabled. rewrite Hs, Hp. cbn [runnable andb pending prim_step].
+  - right. exists rc, dl, dl'. repeat split; auto. intros Hfree. unfold enabled, prim_enabled. rewrite Hs, Hp. cbn [runnable andb pending prim_step].
     rewrite Hs, Hfree. reflexivity.
 Qed.
 
-(* the woken waiter of the previous lemma consumes the flag and returns true when it runs *)
-Lemma monitor_woken_waiter_returns_true_l v dl dl' :
-  st (ps w) v = TWoken MM 0 dl -> pc (tc w v) = MonWaitCond dl' -> is_free (mtx (ps w) MM) = true -> monf w = true ->
+(* the woken waiter of the previous lemma consumes the flag and returns true when it runs - whatever the return
+   code of its (timed) condition wait: a timed-out waiter that consumed the signal does not lose it *)
+Lemma monitor_woken_waiter_returns_true_l v rc dl dl' :
+  st (ps w) v = TWoken MM rc dl -> pc (tc w v) = MonWaitCond dl' -> is_free (mtx (ps w) MM) = true -> monf w = true ->
   let w' := step w (Run v) in
   monf w' = false /\ exists c, trace w' = EvRet v c 1 :: trace w /\ is_mon_wait c = true.
 Proof.
   intros Hs Hp Hfree Hf. cbn [step]. rewrite monf_clear_mark, trace_clear_mark. unfold step_run.
   rewrite Hs. cbn [runnable negb]. rewrite Hp. cbn [pending prim_step]. rewrite Hs, Hfree.
-  cbn [after_return]. wsimpl. rewrite andb_false_r. rewrite Hf. wsimpl. split; auto.
+  cbn [after_return]. wsimpl. rewrite Hf. wsimpl. split; auto.
   eexists; split; [reflexivity|]. pose proof (ai1 _ _ _ HA v) as H1. rewrite Hp in H1. cbn in H1.
   destruct dl' as [d|]; [destruct H1 as ((ms & ->) & _)|rewrite H1]; reflexivity.
 Qed.
